@@ -147,7 +147,7 @@ T('C07', 'twin-backward-rename', NET, "            e = self.EDGES[node.anteceden
 
 # ---------------------------------------------------------------- C08
 M('C08', 'units-max', SI, "        return math.floor(distance / min(self.dX, self.dY) + 1)", "        return math.floor(distance / max(self.dX, self.dY) + 1)", 'C08.U')
-M('C08', 'getcell-swapped-sizes', SI, "        idx = (float(coord.getX()) - self.xmin) / self.dX\n        idy = (float(coord.getY()) - self.ymin) / self.dY", "        idx = (float(coord.getX()) - self.xmin) / self.dY\n        idy = (float(coord.getY()) - self.ymin) / self.dX", 'C08.M')
+M('C08', 'getcell-swapped-sizes', SI, "        idx = (float(coord.getX()) - self.xmin) / self.dX\n        idy = (float(coord.getY()) - self.ymin) / self.dY", "        idx = (float(coord.getX()) - self.xmin) / self.dY\n        idy = (float(coord.getY()) - self.ymin) / self.dX", 'C08.Q')
 M('C08', 'missing-side', SI, "                segment1 = [i + 1, j, i + 1, j + 1]\n                if isSegmentIntersects(segment1, segment2):", "                segment1 = [i, j, i + 1, j]\n                if isSegmentIntersects(segment1, segment2):", 'C08.Q')
 M('C08', 'window-asymmetric', SI, "        imax = min(i + u + 1, self.csize)", "        imax = min(i + u, self.csize)", 'C08.Q')
 T('C08', 'twin-window-names', SI, "        imin = max(i - u, 0)\n        imax = min(i + u + 1, self.csize)", "        imin = max(0, i - u)\n        imax = min(self.csize, 1 + u + i)")
